@@ -155,13 +155,13 @@ Definition site_justification : list jentry := [
   J "_compressed/compressed.py" "CSC.__init__" 0 KSuper AMaybeRaw FDefault FDefault
     (Unjustified "forwards its argument to GCXS.__init__ unchanged; the promise is the caller's");
   J "_compressed/compressed.py" "CSC.from_scipy_sparse" 0 KGcxs ARaw FDefault FDefault
-    (Refuted "from_scipy_sparse_unsorted_indices");
+    (Unjustified "the SciPy matrix is first canonicalised by _canonical_scipy (scipy's sum_duplicates() unless has_canonical_format): sorted, duplicate-free rows are established by the external library (believed, cf. from_scipy_wf_when_rows_sorted); judged at run time");
   J "_compressed/compressed.py" "CSC.transpose" 0 KGcxs ARaw FDefault FDefault
     (Justified SharesArraysOfWf "same arrays, shape reversed, compressed axis 1 -> 0");
   J "_compressed/compressed.py" "CSR.__init__" 0 KSuper AMaybeRaw FDefault FDefault
     (Unjustified "forwards its argument to GCXS.__init__ unchanged; the promise is the caller's");
   J "_compressed/compressed.py" "CSR.from_scipy_sparse" 0 KGcxs ARaw FDefault FDefault
-    (Refuted "from_scipy_sparse_unsorted_indices");
+    (Unjustified "the SciPy matrix is first canonicalised by _canonical_scipy (scipy's sum_duplicates() unless has_canonical_format): sorted, duplicate-free rows are established by the external library (believed, cf. from_scipy_wf_when_rows_sorted); judged at run time");
   J "_compressed/compressed.py" "CSR.transpose" 0 KGcxs ARaw FDefault FDefault
     (Justified SharesArraysOfWf "same arrays, shape reversed, compressed axis 0 -> 1");
   J "_compressed/compressed.py" "GCXS._2d_transpose" 0 KGcxs ARaw FDefault FDefault
@@ -173,9 +173,7 @@ Definition site_justification : list jentry := [
   J "_compressed/compressed.py" "GCXS.from_coo" 0 KGcxs AMaybeRaw FDefault FDefault
     (Unjustified "arrays computed by _from_coo conversion (model of C05; judged at run time)");
   J "_compressed/compressed.py" "GCXS.from_scipy_sparse" 0 KGcxs ARaw FDefault FDefault
-    (Refuted "from_scipy_sparse_unsorted_indices");
-  J "_compressed/compressed.py" "GCXS.from_scipy_sparse" 1 KGcxs ARaw FDefault FDefault
-    (Refuted "from_scipy_sparse_unsorted_indices");
+    (Unjustified "the SciPy matrix is first canonicalised by _canonical_scipy (scipy's sum_duplicates() unless has_canonical_format): sorted, duplicate-free rows are established by the external library (believed, cf. from_scipy_wf_when_rows_sorted); judged at run time");
   J "_compressed/compressed.py" "GCXS.reshape" 0 KGcxs AMaybeRaw FDefault FDefault
     (Unjustified "arrays computed by _resize/_from_coo conversion (model of C08; judged at run time)");
   J "_compressed/compressed.py" "GCXS.transpose" 0 KGcxs AMaybeRaw FDefault FDefault
@@ -324,8 +322,10 @@ Section Ctor.
   (* the checks of __init__ that raise ValueError *)
   Definition coo_ctor_checked (fl : flags) (coords : list idx) (data : list V) (sh : shape) (fill : V)
     : option (coo V) :=
-    if negb (length data =? length coords)%nat then None
-    else if negb (forallb (fun c => (length c =? length sh)%nat) coords) then None
+    (* `if self.shape:` — the two length checks are skipped for a 0-d shape *)
+    let nonscalar := match sh with [] => false | _ => true end in
+    if nonscalar && negb (length data =? length coords)%nat then None
+    else if nonscalar && negb (forallb (fun c => (length c =? length sh)%nat) coords) then None
     else if negb (forallb (fun d => 0 <=? d) sh) then None
     else Some (coo_ctor fl coords data sh fill).
 
@@ -361,7 +361,8 @@ Definition find_entry (file func : string) (ord : Z) : option jentry :=
 (* GCXS.from_scipy_sparse / CSR.from_scipy_sparse / CSC.from_scipy_sparse (and GCXS(m), asarray(m)):
    the three arrays of the SciPy csr/csc matrix are stored as they are.  A valid SciPy matrix has a
    monotone indptr from 0 to nnz and in-range indices; sorted, duplicate-free rows are NOT part of
-   SciPy's format (scipy's own `A @ B` returns unsorted rows, `has_sorted_indices = False`). *)
+   SciPy's format (scipy's own `A @ B` returns unsorted rows, `has_sorted_indices = False`); since
+   fix c3f2e26 the code canonicalises the SciPy matrix first (`_canonical_scipy`). *)
 Definition scipy_valid {V} (m : gcxs V) : bool :=
   match g_shape m, g_caxes m with
   | [r; c], [a] =>
